@@ -12,6 +12,8 @@ go build -o /tmp/pv_regen .
 /tmp/pv_regen -dump leafterms     > pinned_leaf_terms.json
 /tmp/pv_regen -dump codeccalls    > pinned_codec_calls.json
 /tmp/pv_regen -dump switchatoms   > pinned_switch_atoms.json
+/tmp/pv_regen -dump writeargs     > pinned_write_args.json
+/tmp/pv_regen -dump returnvalues  > pinned_return_values.json
 go build -o /verif/bin/pv .
 rm -f /tmp/pv_regen
 ls -la pinned_*.json
